@@ -275,3 +275,61 @@ pub fn long_run_incref(prop: &str, cfg: &Cfg, regimes: &[Regime], seglen: usize,
     }
     Ok(())
 }
+
+// ------------------------------------------------------- Default instances
+
+/// `Default::default()` instances judged against the reference for the parameters the
+/// instance itself REPORTS (period(), multiplier(); documented defaults where there is no
+/// accessor): a default whose inner parts disagree with its reported parameters shows here.
+pub fn default_instances(prop: &str, kinds: &[crate::subjects::Kind], out: &mut JobOut) {
+    use crate::subjects::make_default;
+    for &k in kinds {
+        let d = match std::panic::catch_unwind(|| make_default(k)) {
+            Ok(d) => d,
+            Err(_) => {
+                out.fail(Violation::new(prop, &k.default_cfg(), &[], "panic").obs("Default::default() panicked".into()).exp("an instance".into()));
+                return;
+            }
+        };
+        let mut cfg = k.default_cfg();
+        if let Some(p) = d.period() {
+            cfg.p[0] = p;
+        }
+        if let Some(m) = d.multiplier() {
+            cfg.mult = m;
+        }
+        if cfg.periods().iter().any(|p| *p == 0) {
+            continue;
+        }
+        let len = 3 * cfg.max_period() + 3;
+        let pats = if k.has_scalar() { base_patterns_pos(len) } else { base_patterns_bars(len) };
+        for (name, base) in pats {
+            let ops: Vec<Op> = base.as_ref().clone();
+            let r = std::panic::catch_unwind(std::panic::AssertUnwindSafe(|| {
+                let mut s = make_default(k);
+                ops.iter().map(|op| s.apply(op)).collect::<Vec<Out>>()
+            }));
+            out.stats.traces += 1;
+            out.stats.transitions += len as u64;
+            match r {
+                Ok(outs) => {
+                    for i in 0..len {
+                        out.stats.states += 1;
+                        oracle_node(prop, &cfg, &ops[..=i], &outs[i], out);
+                        if out.failed() {
+                            if let Some(v) = out.violations.last_mut() {
+                                v.detail.push_str(&format!(" [instance obtained from {}::default(), which reports {}; stream {}]", k.rust_type(), cfg.descr(), name));
+                                v.extra.insert("constructor".into(), format!("{}::default()", k.rust_type()));
+                            }
+                            return;
+                        }
+                    }
+                }
+                Err(_) => {
+                    out.fail(Violation::new(prop, &cfg, &ops, "panic").obs("panic".into()).exp("outputs".into()));
+                    return;
+                }
+            }
+        }
+    }
+}
